@@ -12,6 +12,7 @@
 -/
 import Proofs.C07Real
 import Proofs.C07Fitting
+import Proofs.C07FittingOrder
 
 namespace Taurex.C07
 open Taurex.Priors Taurex.OptimizerSM Taurex.FittingSection
@@ -215,6 +216,21 @@ theorem fitting_unknown_is_error (mkPrior : OptVal α → Option (Prior α)) (s 
       (setupOptimizer mkPrior s fitting derive).2.1 ≠ .ok) :=
   setup_errors mkPrior s hw hd fitting derive
 
+/-- **The order of the `[Fitting]` lines is irrelevant.**  Two sections whose lines (split at the colon) are
+    permutations of each other, with keys `name:option` unique as ConfigObj guarantees, are both refused by
+    `generate_fitting_parameters` with the same error, or describe settings with the same `implied` set-up — which by
+    `fitting_section_implied` is what `setup_optimizer` + `compile_params` produce.  (The `[Derive]` records `drecs` are
+    held fixed here; their order-independence is checked on the real code by the harness only.) -/
+theorem fitting_order_free (mkPrior : OptVal α → Option (Prior α)) (s0 : St String α)
+    (ents ents' : List (String × OptVal α)) (ls ls' : List (Line α))
+    (hs : splitAll ents = some ls) (hs' : splitAll ents' = some ls') (hperm : ls.Perm ls')
+    (hnd : (ls.map lkey).Nodup) (drecs : List (String × Option (OptVal α))) :
+    match parseFitting mkPrior ents [], parseFitting mkPrior ents' [] with
+    | .ok grp, .ok grp' => implied (sectionSettings s0 grp drecs) = implied (sectionSettings s0 grp' drecs)
+    | .error e, .error e' => e = e'
+    | _, _ => False :=
+  sectionSettings_perm mkPrior s0 ents ents' ls ls' hs hs' hperm hnd drecs
+
 end
 
 /-! ### non-vacuity: a state with two model parameters (one log), one observation parameter, one derived parameter -/
@@ -251,6 +267,54 @@ example : ∃ v, fitValues (run exInit [.compile]) = some v ∧ v.length = 2 := 
   refine ⟨[1500, Real.log 10 / Real.log 10], ?_, rfl⟩
   simp [run, step, compile, compileTable, exInit, initSt, tget, tset, defaultPrior, mkUniform, mkLogUniformLin, mkLogUniform,
     log10?, entryOf, derivedOf, fitValues, fitValuesAux, reportValue, getValue, table, Prior.mode]
+
+/-! ### non-vacuity of the section theorems -/
+
+noncomputable def exFitting : List (String × OptVal ℝ) :=
+  [("T:fit", .bool true), ("T:bounds", .nums [500, 1000]), ("H2O:mode", .str "LINEAR"), ("Offset_1:fit", .str "yes"),
+   ("Offset_1:factor", .nums [0.5, 2])]
+
+noncomputable def exDerive : List (String × OptVal ℝ) := [("mu:compute", .bool false)]
+
+example : DisjD exInit := by
+  intro n hn; simp [exInit, initSt, dnames] at hn ⊢
+
+/-- `setup_optimizer` runs through on this section (hypothesis `hok` of `fitting_section_implied`) -/
+example : (setupOptimizer (fun _ => none) exInit exFitting exDerive).2.1 = .ok := by
+  have k1 : splitKey "T:fit" = some ("T", "fit") := by decide +kernel
+  have k2 : splitKey "T:bounds" = some ("T", "bounds") := by decide +kernel
+  have k3 : splitKey "H2O:mode" = some ("H2O", "mode") := by decide +kernel
+  have k4 : splitKey "Offset_1:fit" = some ("Offset_1", "fit") := by decide +kernel
+  have k5 : splitKey "Offset_1:factor" = some ("Offset_1", "factor") := by decide +kernel
+  have k6 : splitKey "mu:compute" = some ("mu", "compute") := by decide +kernel
+  have c1 : classify "fit" = .fit := by decide +kernel
+  have c2 : classify "bounds" = .bounds := by decide +kernel
+  have c3 : classify "mode" = .mode := by decide +kernel
+  have c4 : classify "factor" = .factor := by decide +kernel
+  have m1 : parseMode "linear" = some FitMode.linear := by decide +kernel
+  have m2 : "LINEAR".toLower = "linear" := by decide +kernel
+  simp [setupOptimizer, exFitting, exDerive, exInit, initSt, parseFitting, k1, k2, k3, k4, k5, k6, setOpt, c1, c2, c3, c4,
+    getRec, updRec, fittingOps, recOps, pairOpt, modeOpt, truthy, PairOpt.isBad, ModeOpt.isBad, fitOps, factorOps, boundsOps,
+    modeOps, priorOps, runStop, step, withParam, ownerOf, hasName, table, setTable, modifyParam, m1, m2, splitAll, deriveRecs,
+    updD, deriveOps, withDerived, hasDerived]
+
+/-- keys that do not split, and unknown names, exist (hypotheses of `fitting_unknown_is_error`) -/
+example : splitKey "Tfit" = none ∧ splitKey "T:fit:x" = none ∧ ¬ Known exInit "no_such_param" ∧ ¬ KnownD exInit "nope" := by
+  refine ⟨by decide +kernel, by decide +kernel, ?_, ?_⟩ <;> simp [Known, KnownD, exInit, initSt, names, dnames]
+
+/-- two different orders of the same lines with unique keys (hypotheses of `fitting_order_free`) -/
+example : ∃ ls ls' : List (Line ℝ), splitAll exFitting = some ls ∧ splitAll exFitting.reverse = some ls' ∧ ls.Perm ls' ∧
+    (ls.map lkey).Nodup ∧ ls ≠ ls' := by
+  have k1 : splitKey "T:fit" = some ("T", "fit") := by decide +kernel
+  have k2 : splitKey "T:bounds" = some ("T", "bounds") := by decide +kernel
+  have k3 : splitKey "H2O:mode" = some ("H2O", "mode") := by decide +kernel
+  have k4 : splitKey "Offset_1:fit" = some ("Offset_1", "fit") := by decide +kernel
+  have k5 : splitKey "Offset_1:factor" = some ("Offset_1", "factor") := by decide +kernel
+  refine ⟨_, _, by simp [exFitting, splitAll, k1, k2, k3, k4, k5]; rfl,
+    by simp [exFitting, splitAll, k1, k2, k3, k4, k5]; rfl, ?_, ?_, ?_⟩
+  · exact (List.reverse_perm _).symm
+  · simp [lkey]
+  · simp
 
 /-! ### regression witness: the pre-fix prior cache (F11) is history dependent -/
 
